@@ -452,6 +452,12 @@ def ns1(ctx, R):
         # properties[NAME] / properties.get(NAME[, default])
         return x == ("sub", P, NAME) or (match(("method", "get", P, W(), W()), x) is not None and x[3] and x[3][0] == NAME)
     explicit_seen = False
+    if v[0] == "try" and v[2] == "KeyError":
+        # try: return int(properties[NAME])  except KeyError: <inferred>
+        b = match(("call", "int", (W("x"),), ()), v[1])
+        if b is not None and is_lookup(b["x"]):
+            explicit_ok = explicit_seen = True
+            v = v[3]
     for conds, leaf in leaves(v):
         fc = flat_conds(conds)
         b = match(("call", "int", (W("x"),), ()), leaf)
@@ -492,8 +498,17 @@ def ns1(ctx, R):
                     fdef = prog.module("scaling").assigns.get(mp["f"][1]) if mp["f"][0] in ("global", "name") else None
                     if isinstance(fdef, ast.Attribute) and fdef.attr == "match":
                         good = True
+        # max() over the captured digit strings themselves compares them as text ('9' > '10')
+        text_max = False
+        for x, _b in find(body, ("call", "max", W(), W())):
+            seq = x[2][0] if x[2] else None
+            if seq is not None and seq[0] == "comp" and match(("method", "group", W(), W(), W()), seq[1]) is not None:
+                text_max = True
         if good:
             R.ok(key, fi.where(), "max(index) + 1 over NI_Scale[i]_Scale_Type properties")
+        elif text_max:
+            R.violation(key, fi.where(), "the highest scale index is taken with max() over the matched digit strings (`%s`): strings compare as text, so with ten "
+                        "or more scales '9' beats '10' and the later scales, the output among them, are dropped" % show(body)[:140])
         elif find(body, ("len", W())) or find(body, ("sum", W(), W(), W(), W())) and not find(body, ("call", "max", W(), W())):
             R.violation(key, fi.where(), "the number of scales is inferred by counting NI_Scale[i]_Scale_Type properties (`%s`): scales without a "
                         "Scale_Type property (DAQmx raw scalers occupy the low indices) make the count smaller than highest index + 1 and the last "
@@ -586,6 +601,9 @@ def ao1(ctx, R):
     if b is None and find(v, ("sub", ("comp", W(), W(), W(), W()), ("const", -1))):
         R.violation("scaling.get_scaling::first non-None wins", gs.where(), "the LAST scope that defines a scaling wins (`%s`): file or group scalings "
                     "override the channel's own" % show(v)[:160])
+    elif b is None and any(sum(1 for p_ in params if find(x[2], p_)) >= 2 for x, _b in find(v, ("call", gcs.qual, W(), W()))):
+        R.violation("scaling.get_scaling::one scope at a time", gs.where(), "the scaling is built from a mapping that merges several scopes (`%s`): the NI_Scale "
+                    "definitions of channel, group and file are mixed key by key instead of being taken from the first scope that defines a scaling" % show(v)[:160])
     elif b is None:
         R.undecided("scaling.get_scaling::lookup order", gs.where(), "search form `%s` not understood" % show(v)[:160])
     else:
